@@ -83,6 +83,7 @@ func main() {
 	knownPath := flag.String("known", "", "known_findings.json: violations matching a listed finding are counted, not reported")
 	sets := flag.String("sets", "", "file receiving the interleaving ids of non-trivial runs (raw little-endian uint64)")
 	flag.Parse()
+	shadowConfig() // an earlier component of the process has loaded its own config through dials
 
 	if *replay != "" {
 		os.Exit(doReplay(*replay, *verbose))
